@@ -64,7 +64,7 @@ func init() {
 	addMutants(
 		// D67-D73 reverted (C01 wiring repairs of the fifth round)
 		mutant{Name: "only-the-first-case-expression-wired", Prop: "C01", File: "interp/cfg.go", Old: "\t\t\t\t\tc.start = body.start\n\t\t\t\t\tfor j, e := range c.child[:len(c.child)-1] {\n\t\t\t\t\t\tif j == 0 {\n\t\t\t\t\t\t\tc.start = e.start\n\t\t\t\t\t\t} else {\n\t\t\t\t\t\t\tc.child[j-1].tnext = e.start\n\t\t\t\t\t\t}\n\t\t\t\t\t\te.tnext = c\n\t\t\t\t\t}\n", New: "\t\t\t\t\tc.child[0].tnext = c\n\t\t\t\t\tc.start = c.child[0].start\n", Rule: "R01.23", Key: "cfg/case:switchStmt/every-case-expression-wired"},
-		mutant{Name: "empty-switch-skips-its-header", Prop: "C01", File: "interp/cfg.go", Old: "\t\t\t\t// Switch is empty: its init statement and tag are still evaluated.\n\t\t\t\tn.start = n.child[0].start\n\t\t\t\tif n.kind == typeSwitch {\n\t\t\t\t\tn.child[0].tnext = n\n\t\t\t\t} else {\n\t\t\t\t\twireSwitchHeader(n, n)\n\t\t\t\t}\n\t\t\t\tbreak\n\t\t\t}\n\t\t\t// Chain case clauses.", New: "\t\t\t\tbreak\n\t\t\t}\n\t\t\t// Chain case clauses.", Rule: "R01.24", Key: "cfg/case:switchStmt/empty-switch-evaluates-its-header"},
+		mutant{Name: "empty-switch-skips-its-header", Prop: "C01", File: "interp/cfg.go", Old: "\t\t\t\t// Switch is empty: its init statement and tag are still evaluated.\n\t\t\t\tn.start = n.child[0].start\n\t\t\t\tif n.kind == typeSwitch {\n\t\t\t\t\tn.child[0].tnext = n\n\t\t\t\t} else {\n\t\t\t\t\twireSwitchHeader(n, n)\n\t\t\t\t}\n\t\t\t\tbreak\n\t\t\t}\n\t\t\tif n.kind == switchStmt {\n", New: "\t\t\t\tbreak\n\t\t\t}\n\t\t\tif n.kind == switchStmt {\n", Rule: "R01.24", Key: "cfg/case:switchStmt/empty-switch-evaluates-its-header"},
 		mutant{Name: "dereferenced-condition-stored-on-the-true-branch-only", Prop: "C01", File: "interp/run.go", Old: "\t\t\tr := value(f).Elem()\n\t\t\tgetFrame(f, l).data[i] = r\n\t\t\tif r.Bool() {\n\t\t\t\treturn tnext\n\t\t\t}\n", New: "\t\t\tr := value(f).Elem()\n\t\t\tif r.Bool() {\n\t\t\t\tgetFrame(f, l).data[i] = r\n\t\t\t\treturn tnext\n\t\t\t}\n", Rule: "R01.19", Key: "deref/branching-closure#1/stores-its-value-on-every-path"},
 		mutant{Name: "range-over-pointer-without-hidden-slot", Prop: "C01", File: "interp/cfg.go", Old: "\t\t\t\t\tcase ptrT:\n\t\t\t\t\t\tsc.add(sc.getType(\"int\")) // Add a dummy type to store array shallow copy for range\n", New: "\t\t\t\t\tcase ptrT:\n", Rule: "R01.25", Key: "cfg/range/case:ptrT/hidden-slot-allocated"},
 		mutant{Name: "loop-variable-redeclaration-dropped", Prop: "C01", File: "interp/cfg.go", Old: "\t\t\t\t\t\t\tif fi != nil && dest.ident == fi.ident {\n\t\t\t\t\t\t\t\t// A new variable, which shadows the per-iteration copy of the loop variable.\n", New: "\t\t\t\t\t\t\tif fi != nil && dest.ident == fi.ident {\n\t\t\t\t\t\t\t\tif src.kind == identExpr && src.ident == dest.ident {\n\t\t\t\t\t\t\t\t\tn.gen = nop\n\t\t\t\t\t\t\t\t\tbreak\n\t\t\t\t\t\t\t\t}\n\t\t\t\t\t\t\t\t// A new variable, which shadows the per-iteration copy of the loop variable.\n", Rule: "R01.11", Key: "redeclaration-creates-a-variable"},
@@ -387,5 +387,28 @@ func init() {
 		// D110 reverted (one site)
 		mutant{Name: "goroutine-of-an-interpreted-call-without-a-guard", Prop: "C09", File: "interp/run.go", Old: "\t\t\tgo func() {\n\t\t\t\tdefer goGuard(n, f)()\n\t\t\t\trunCfg(def.child[3].start, nf, def, n)\n\t\t\t}()\n", New: "\t\t\tgo func() {\n\t\t\t\trunCfg(def.child[3].start, nf, def, n)\n\t\t\t}()\n", Rule: "R09.9", Key: "call/go#2/panic-of-a-cancelled-run-stops-in-the-goroutine"},
 		mutant{Name: "goroutine-guard-swallows-every-panic", Prop: "C09", File: "interp/run.go", Old: "\t\tif r := recover(); r != nil && f.runid() == n.interp.runid() {\n\t\t\tpanic(r)\n\t\t}\n", New: "\t\t_ = recover()\n", Rule: "R09.9", Key: "call/go#1/panic-of-a-cancelled-run-stops-in-the-goroutine"},
+	)
+}
+
+func init() {
+	addMutants(
+		// round-7 seed on C19
+		mutant{Name: "debugger-not-consulted-while-stepping-over", Prop: "C19", File: "interp/run.go", Old: "\t\tif dbg.exec(m, f) {\n\t\t\tbreak\n\t\t}\n", New: "\t\tif f.debug.g.mode != DebugStepOver && dbg.exec(m, f) {\n\t\t\tbreak\n\t\t}\n", Rule: "R19.14", Key: "runCfg/debugger-loop#1/debugger-consulted-before-every-node"},
+	)
+}
+
+func init() {
+	addMutants(
+		// round-7 seeds on C04 and C16
+		mutant{Name: "receiver-copied-before-the-dereference", Prop: "C04", File: "interp/run.go", Old: "\t\t\tr := recv(f)\n\t\t\tif !ptrRecv {\n\t\t\t\tfor r.Kind() == reflect.Ptr {\n\t\t\t\t\tr = r.Elem()\n\t\t\t\t}\n\t\t\t}\n\t\t\tif !ptrRecv || r.Kind() == reflect.Ptr {\n\t\t\t\tc := reflect.New(r.Type()).Elem()\n\t\t\t\tc.Set(r)\n\t\t\t\tr = c\n\t\t\t}\n\t\t\tnod.recv = &receiver{val: r}\n", New: "\t\t\tnod.recv = &receiver{val: bindRecv(recv(f), ptrRecv)}\n", Also: [][3]string{{"interp/run.go", "// hasPtrRecv returns true if the method declaration m has a pointer receiver.\n", "func bindRecv(r reflect.Value, ptrRecv bool) reflect.Value {\n\tif ptrRecv && r.Kind() != reflect.Ptr {\n\t\treturn r\n\t}\n\tr = fixArg(r)\n\tif !ptrRecv {\n\t\tfor r.Kind() == reflect.Ptr {\n\t\t\tr = r.Elem()\n\t\t}\n\t}\n\treturn r\n}\n\n// hasPtrRecv returns true if the method declaration m has a pointer receiver.\n"}}, Rule: "R04.23", Key: "getMethod/closure#1/receiver-bound-at-evaluation"},
+		mutant{Name: "benign-receiver-bound-by-a-helper", Prop: "C04", File: "interp/run.go", Old: "\t\t\tr := recv(f)\n\t\t\tif !ptrRecv {\n\t\t\t\tfor r.Kind() == reflect.Ptr {\n\t\t\t\t\tr = r.Elem()\n\t\t\t\t}\n\t\t\t}\n\t\t\tif !ptrRecv || r.Kind() == reflect.Ptr {\n\t\t\t\tc := reflect.New(r.Type()).Elem()\n\t\t\t\tc.Set(r)\n\t\t\t\tr = c\n\t\t\t}\n\t\t\tnod.recv = &receiver{val: r}\n", New: "\t\t\tnod.recv = &receiver{val: bindRecv(recv(f), ptrRecv)}\n", Also: [][3]string{{"interp/run.go", "// hasPtrRecv returns true if the method declaration m has a pointer receiver.\n", "func bindRecv(r reflect.Value, ptrRecv bool) reflect.Value {\n\tif !ptrRecv {\n\t\tfor r.Kind() == reflect.Ptr {\n\t\t\tr = r.Elem()\n\t\t}\n\t}\n\tif !ptrRecv || r.Kind() == reflect.Ptr {\n\t\tr = fixArg(r)\n\t}\n\treturn r\n}\n\n// hasPtrRecv returns true if the method declaration m has a pointer receiver.\n"}}, Benign: true},
+		mutant{Name: "import-mark-set-before-the-package-is-located", Prop: "C16", File: "interp/src.go", Old: "\t// For relative import paths in the form \"./xxx\" or \"../xxx\", the initial\n", New: "\tif interp.rdir[importPath] {\n\t\treturn \"\", fmt.Errorf(\"import cycle not allowed\\n\\timports %s\", importPath)\n\t}\n\tinterp.rdir[importPath] = true\n\n\t// For relative import paths in the form \"./xxx\" or \"../xxx\", the initial\n", Also: [][3]string{{"interp/src.go", "\tif interp.rdir[importPath] {\n\t\treturn \"\", fmt.Errorf(\"import cycle not allowed\\n\\timports %s\", importPath)\n\t}\n\tinterp.rdir[importPath] = true\n\t// The package is not being imported any more", "\t// The package is not being imported any more"}}, Rule: "R16.9", Key: "importSrc/mark-removed-on-every-exit"},
+	)
+}
+
+func init() {
+	addMutants(
+		// D111 reverted
+		mutant{Name: "struct-literal-wraps-for-the-first-destination", Prop: "C01", File: "interp/run.go", Old: "\t\tif dest := n.anc.child[0]; n.findex == dest.findex && n.level == dest.level {\n\t\t\treturn dest.typ\n\t\t}\n", New: "\t\treturn n.anc.child[0].typ\n", Rule: "R01.35", Key: "destType/left-hand-side-type-only-when-built-there"},
 	)
 }
